@@ -108,7 +108,8 @@ Report == Len(nodes) = MaxNodes =>
              PrintT(<<"MODEL", TableId, nodes, ok, IF ok THEN [k \in 1..Len(nodes) |-> e[k][2]] ELSE <<>>>>)
 \* ---------- every ordered producer / consumer pair (INIT PairInit, no steps): two reads and two fuzzy conversions as a base,
 \* the producer on the base, the consumer on the producer (filled up with base nodes of the right fuzziness)
-Base == << <<"EEMSRead", <<>>, "a">>, <<"EEMSRead", <<>>, "d">>,
+\* (columns a and b: in table 2 only the first has a missing cell, in table 1 only the second, in table 3 neither)
+Base == << <<"EEMSRead", <<>>, "a">>, <<"EEMSRead", <<>>, "b">>,
            <<"CvtToFuzzy", << <<"TrueThreshold", R(3)>>, <<"FalseThreshold", R(-1)>> >>, <<1>>>>, <<"CvtToFuzzy", <<>>, <<2>>>> >>
 Arity(cmd) == IF cmd \in Single THEN 1 ELSE 2
 BaseIns(cmd) == IF cmd \in FuzzyIn THEN <<3, 4>> ELSE <<1, 2>>
